@@ -55,7 +55,8 @@ Definition scalar_ok (s : scalar) (cs : list chan) : bool :=
    - SequencePT: all sub-templates define the same channels
    - ForLoopPT: the loop index does not occur in the range (InvalidParameterNameException)
    - ParallelChannelPT: time dependent values only over an atomic template (TypeError)
-   - ArithmeticPT: a scalar mapping only mentions channels of the template (ValueError) *)
+   - ArithmeticPT: a scalar mapping only mentions channels of the template (ValueError); scalar / template is
+     not allowed (ValueError) *)
 Fixpoint wf (p : pt) : bool :=
   nodupb (channels p) &&
   match p with
@@ -76,7 +77,7 @@ Fixpoint wf (p : pt) : bool :=
   | Par b ov => wf b && nodupb (dkeys ov) && forallb (fun kv => no_t (snd kv)) ov
                 && (negb (existsb (fun kv => timedep (snd kv)) ov) || atomic b)
   | ArithL b _ s => wf b && scalar_ok s (channels b)
-  | ArithR s _ b => wf b && scalar_ok s (channels b)
+  | ArithR s op b => wf b && scalar_ok s (channels b) && match op with ODiv => false | _ => true end
   | AAtom l _ r => wf l && wf r
   end.
 
